@@ -415,6 +415,14 @@ def _symmetric_tail(repo: Repo, chk: Check, f: Func, fl: Flow) -> None:
         if isinstance(v_, ast.ListComp) and len(v_.generators) == 1 and ast.unparse(v_.generators[0].iter) == ast.unparse(t_) and v_.generators[0].ifs \
                 and ast.unparse(v_.elt) == ast.unparse(v_.generators[0].target):
             return "scoped"
+        # the filter lives in a module helper: `pending = without_settled(pending, block)` with `return [x for x in pending if not ..]`
+        if isinstance(v_, ast.Call) and isinstance(v_.func, ast.Name) and v_.func.id in f.module.funcs and v_.args and ast.unparse(v_.args[0]) == ast.unparse(t_):
+            h_ = f.module.funcs[v_.func.id]
+            rets_ = [r_ for r_ in ast.walk(h_.node) if isinstance(r_, ast.Return) and r_.value is not None]
+            if len(rets_) == 1 and h_.params and isinstance(rets_[0].value, ast.ListComp) and len(rets_[0].value.generators) == 1:
+                g_ = rets_[0].value.generators[0]
+                if ast.unparse(g_.iter) == h_.params[0] and g_.ifs and ast.unparse(rets_[0].value.elt) == ast.unparse(g_.target):
+                    return "scoped-helper"
         return None
 
     resets = [s for s in fl.stmts(ast.Assign, ast.AnnAssign) if s.reachable and s.loops and _is_reset(s) is not None]
@@ -442,7 +450,7 @@ def _symmetric_tail(repo: Repo, chk: Check, f: Func, fl: Flow) -> None:
              "it never empties the list", floor=1)
     for n_, s in enumerate(resets, 1):
         kind = _is_reset(s)
-        scoped = kind == "scoped" and any(isinstance(c_, ast.Call) for i_ in s.node.value.generators[0].ifs for c_ in ast.walk(i_))
+        scoped = kind == "scoped-helper" or (kind == "scoped" and any(isinstance(c_, ast.Call) for i_ in s.node.value.generators[0].ifs for c_ in ast.walk(i_)))
         chk.result(scoped, "C13.barrier-scope", f"{f.key}:reset#{n_}", s.where(), "only the ops in the barrier's block stop waiting for a barrier",
                    "the whole pending list is dropped at a barrier, wherever the barrier sits: with a consumer in the then- and another in the else-branch of an scf.if "
                    "only the first walked branch gets a barrier, the other path from the producer to its consumer has none (likewise a consumer behind a loop whose "
